@@ -22,6 +22,9 @@
 (*                      notification fails - the sweep-side twin of "closeNeedsCloud"               *)
 (*   "removeDropsForeignIndex" (in Session!Remove)  removeConnectionLocked deletes the index entry  *)
 (*                      of the connection's client whichever connection it points at (seed r5m1)    *)
+(*   "reRegisterKeepsIndex"  Register on an existing ConnID with the same stream overwrites the    *)
+(*                      entry and keeps the old object's index entry (seed r7m2)                    *)
+(* ReReg: re-registration of an existing connection id (same / other stream).                        *)
 (* LoginLost / LoginHold / LoginResume: connections authenticated for X but not (yet) indexed.       *)
 (* CloseCmd: the disconnect announced by the client (the second call site of CloseConnection).       *)
 (* Emit = "canon": print the histories that reached MaxLevel operations and name connections in     *)
@@ -134,6 +137,24 @@ LoginResume ==
         /\ ctl' = Ctl("ok", c, "control", t)
   /\ sw' = [sw EXCEPT !.h = None]
   /\ UNCHANGED <<pc, proved, used, gv, dev>>
+\* ---- re-registration of an existing connection id (round 7).  ClientRegistry.Register for a ConnID that is already in
+\* connMap ("already exists, replacing"): removeConnectionLocked(existing) - the old object's stream is closed, its index
+\* entry dropped - then the new, unauthenticated ControlConnection object is stored.  how = "same": the new object shares
+\* the old one's stream (a second registration on one transport), "other": it has a stream of its own over the same
+\* socket.  Either way the socket is closed by the removal, so the connection's read loop ends and CloseConnection takes
+\* the new registration away too.  Fault "reRegisterKeepsIndex": with the same stream the entry is simply overwritten -
+\* stream left open, the old object's index entry left behind (clientIDMap[X] points at a superseded object).
+ReReg(c, how) ==
+  /\ "ReReg" \in Ops /\ ~Split /\ Go /\ c \in st.reg /\ c \in st.sess /\ c \notin st.tcl /\ c # st.kq /\ c # sw.q /\ c # sw.h
+  /\ LET s1 == Remove(st, c)
+         s2 == [s1 EXCEPT !.reg = @ \cup {c}, !.auth[c] = None, !.pend[c] = 0, !.ord = Append(Live(s1), c)]
+         t  == IF "reRegisterKeepsIndex" \in Faults /\ how = "same"
+               THEN [st EXCEPT !.auth[c] = None, !.pend[c] = 0]
+               ELSE CloseConn(s2, c)
+     IN /\ st' = t /\ Record([op |-> "ReReg", c |-> c, how |-> how], t)
+        /\ ctl' = ctl \ {c}
+  /\ UNCHANGED <<pc, proved, used, gv, dev, sw>>
+
 \* while a login is held no other operation concerns its connection (its read loop is busy; it is not indexed, so
 \* no kick reaches it)
 HeldUntouched == sw.h = None \/ LET e == hist'[Len(hist')] IN ~("c" \in DOMAIN e /\ e.c = sw.h)
@@ -142,6 +163,7 @@ InitX == Init /\ sw = NoSweep
 NextX == /\ \/ Next /\ UNCHANGED sw /\ HeldUntouched
             \/ \E c \in ConnS, X \in ClientS : LoginLost(c, X) \/ LoginHold(c, X)
             \/ LoginResume
+            \/ \E c \in ConnS, how \in {"same", "other"} : ReReg(c, how)
             \/ \E c \in ConnS : SweepBegin(c)
             \/ SweepEnd
             \/ \E S \in SUBSET ConnS : TickX(S)
